@@ -18,8 +18,9 @@ open ScpiVerif ScpiVerif.Ctx ScpiVerif.Lexer
 every message position and length: the bytes written while the message is parsed are exactly
 `frame` of the result items of its units — response units separated by single ';', items by single
 ',', one line terminator and one flush iff at least one unit responded, nothing otherwise —
-provided no handler left a result item unfinished (gPartial = false; an unfinished block is C17's
-subject). -/
+provided no handler left a result item unfinished, started a new item inside an unfinished block, or
+sent block data without a block header (gPartial = false; these are misuses of the streaming block
+API, whose own behaviour is C17's subject). -/
 theorem framing (c : Ctx) (base len : Nat) :
     let c' := (parse c base len).1
     c'.out.gPartial = false →
